@@ -74,6 +74,7 @@ VISIBILITIES = [
     ("hide-Mutation", dict(hidden_types=("Mutation",))),
     ("hide-Subscription", dict(hidden_types=("Subscription",))),
     ("hide-interface-Node", dict(hidden_types=("Node",))),
+    ("hide-field-Query.me", dict(hidden_fields=(("Query", "me"),))),          # a field with a registered resolver
     ("hide-several", dict(hidden_types=("Dog",), hidden_fields=(("User", "tags"), ("Query", "echo")), hidden_input_fields=(("Filter", "names"),))),
 ]
 
@@ -254,13 +255,24 @@ def check(tier, seed):
             apply_and_check(source, before, label, fn, kw, list(hist))
             hist.append(label)
     # chains: the result of one operation is the source of the next
-    for seq in seqs[: (60 if tier == "thorough" else 15)]:
+    labels = [l for l, _f, _k in ops]
+    forced = [(labels.index("hide-Subscription"), labels.index("clone")), (labels.index("hide-field-Query.me"), labels.index("hide-type-Cat")),
+              (labels.index("hide-Mutation"), labels.index("extend-0")), (labels.index("extend-0"), labels.index("clone"))]
+    for seq in forced + seqs[: (60 if tier == "thorough" else 15)]:
         cur = make_source()
         hist = []
         for i in seq:
             label, fn, kw = ops[i]
             if kw.get("camel") or any(h == "camel-case" for h in hist):
                 break
+            # an extension of something an earlier step of the chain removed is invalid input (rightly refused), not a case of the property
+            removed = set()
+            for h in hist:
+                hk = dict(ops[[l for l, _f, _k in ops].index(h)][2])
+                removed |= set(hk.get("hidden_types", ())) | {f for _t, f in hk.get("hidden_fields", ())} | {f for _t, f in hk.get("hidden_input_fields", ())} \
+                    | set(hk.get("hidden_directives", ()))
+            if "extension" in kw and any(__import__("re").search(r"\b%s\b" % r, kw["extension"]) for r in removed):
+                continue
             nxt = apply_and_check(cur, S6.snapshot(cur), label, fn, kw, ["chain"] + hist)
             if nxt is None:
                 break
